@@ -1,4 +1,5 @@
 import Mathlib.Tactic.Ring
+import Mathlib.Algebra.Ring.Hom.Defs
 import PharmpyModel.C05.Matrix
 /-
   Sums over lists in a commutative ring, and the row lemma behind `matrix_is_rhs`.
@@ -99,5 +100,10 @@ theorem sum_zipIdx_one (f d : α → R) (l : List α) (k r : Nat) (x : α) (hk :
       rw [ih (k + 1) h1 hx]
       simp only [ne_eq, hkr, not_false_eq_true, if_true]
       ring
+
+theorem map_list_sum' {R R' : Type} [CommRing R] [CommRing R'] (h : R →+* R') (l : List R) : h l.sum = (l.map h).sum := by
+  induction l with
+  | nil => simp
+  | cons a l ih => simp only [List.sum_cons, map_add, ih, List.map_cons]
 
 end Pharmpy.C05
